@@ -1,4 +1,6 @@
 //! E4: network adversaries over scripted transports, through the `verif` facade of the network crate.
+mod alloc;
+mod c10;
 mod c12;
 mod c13;
 mod c14;
@@ -8,6 +10,9 @@ mod pool;
 mod transport;
 
 use vcommon::{Args, Report};
+
+#[global_allocator]
+static GLOBAL: alloc::Counting = alloc::Counting;
 
 fn main() {
     let args = Args::parse();
@@ -19,6 +24,7 @@ fn main() {
         ("C14", _) => c14::run(&args, &mut rep),
         ("C18", _) => c18::run(&args, &mut rep),
         ("C19", _) => c19::run(&args, &mut rep),
+        ("C10", _) => c10::run(&args, &mut rep),
         ("C12", "pool") => pool::run(&args, &mut rep),
         ("C12", _) => c12::run(&args, &mut rep),
         (p, m) => panic!("unknown property/mode {p}/{m}"),
